@@ -47,15 +47,26 @@ class Clock:
 _CUR = None   # the cluster of the case being run
 
 
+_NSOCK = [0]
+
+
 class Push:
-    """zmq PUSH socket: one assembly buffer per socket"""
+    """zmq PUSH socket: one assembly buffer per socket.  A socket the code under test keeps in a module-level place
+    outlives the case (as it would live as long as the process): it then works on the wire of the case being run"""
 
     def __init__(self, cluster):
-        self.cluster = cluster
+        self.made_in = cluster
         self.address = None
         self.parts = []      # [(frame, sender tag)]
-        self.sid = cluster.new_socket_id()
+        _NSOCK[0] += 1
+        self.sid = _NSOCK[0]
         self.closed = False
+
+    @property
+    def cluster(self):
+        if _CUR is not None and _CUR is not self.made_in:
+            self.made_in, self.parts = _CUR, []
+        return self.made_in
 
     def connect(self, address, *a, **k):
         self.address = address
@@ -94,13 +105,13 @@ class Push:
 
 class Pull:
     def __init__(self, cluster):
-        self.cluster = cluster
+        self.made_in = cluster
         self.queue = []
         self.address = None
 
     def bind(self, address, *a, **k):
         self.address = address
-        self.cluster.pull_by_addr[address] = self
+        self.made_in.pull_by_addr[address] = self
 
     def recv_multipart(self, *a, **k):
         return self.queue.pop(0)
@@ -231,6 +242,10 @@ class ManualExecutor:
         """job i runs to completion (from where it is)"""
         fut, fn, args, ran, kw, co = self.jobs[i]
         assert not ran
+        if co is None and self.under_way():
+            # another job is under way on its own thread (it may hold a lock this one needs): this one gets a thread too,
+            # so that the scheduler notices when it cannot get on
+            co = self.jobs[i][5] = _Co(fn, args, kw, ("job", self.host, i))
         if co is None:
             tag = ("job", self.host, i)
             prev, self.cluster.sync_tag = self.cluster.sync_tag, tag
@@ -257,7 +272,7 @@ class ManualExecutor:
 
     def _advance(self, i, stepping):
         co = self.jobs[i][5]
-        ok = co.advance(stepping, timeout=0.1)
+        ok = co.advance(stepping, timeout=0.2)
         if not ok:
             # blocked (e.g. on a lock held by another paused job): let the others finish, then it must get on
             for k in self.under_way():
@@ -397,10 +412,6 @@ class Cluster:
     def hname(i):
         return "controller" if i == 0 else f"h{i}"
 
-    def new_socket_id(self):
-        self.nsock += 1
-        return self.nsock
-
     def sender_tag(self):
         """who is sending: a pool job (its own thread, or run in line by the harness), a loop, or the harness (controller)"""
         t = getattr(threading.current_thread(), "_verif_tag", None)
@@ -529,6 +540,11 @@ class Cluster:
             srv = self.dsm.DataServer(f"m{i}", f"d{i}", f"h{i}", 12345, {"version": 1})
             self.server[i] = srv
             self.pull[i] = self.pull_by_addr[f"d{i}"]
+            # the listener the server reads from: whichever attribute holds the Listener bound to its data address
+            ls = [v for v in vars(srv).values() if getattr(v, "socket", None) is self.pull[i] and hasattr(v, "recv_messages")]
+            if len(ls) != 1:
+                raise RuntimeError(f"DataServer.__init__ made {len(ls)} listeners on its data address, the harness knows how to drive one")
+            self.listener[i] = ls[0]
             pools = self.created_pools[npools:]
             if len(pools) != 1:
                 raise RuntimeError(f"DataServer.__init__ created {len(pools)} thread pools, the harness knows how to drive one")
@@ -613,7 +629,7 @@ class Cluster:
             return None
         srv = self.server[host]
         self.current = host
-        lst = srv.dlistener
+        lst = self.listener[host]
         orig = lst.recv_messages
 
         def once(timeout_ms=None, *a, **k):
